@@ -754,6 +754,22 @@ fn resolve_builtin_identifier<I: Interrupt>(
 	context: &mut crate::Context,
 	int: &I,
 ) -> FResult<Value> {
+	// the built-in definitions below are written with `.` as the decimal
+	// separator, whatever style the user chose: evaluate them in that style
+	let user_style = context.decimal_separator;
+	context.decimal_separator = crate::DecimalSeparatorStyle::Dot;
+	let result = resolve_builtin_identifier_inner(ident, scope, attrs, context, int);
+	context.decimal_separator = user_style;
+	result
+}
+
+fn resolve_builtin_identifier_inner<I: Interrupt>(
+	ident: &Ident,
+	scope: Option<Arc<Scope>>,
+	attrs: Attrs,
+	context: &mut crate::Context,
+	int: &I,
+) -> FResult<Value> {
 	macro_rules! eval_box {
 		($input:expr) => {
 			Box::new(evaluate_to_value(
